@@ -3,9 +3,9 @@ import itertools, json, os, re
 import vlib
 from gen import jsongen as G
 
-TRANSLATORS = ["error_codes"]
+TRANSLATORS = ["error_codes", "limits_wiring", "error_consts"]
 MODELS = ["wire"]
-BINS = {"release": ["wire"]}
+BINS = {"release": ["wire", "srvlimits"]}
 RULE = ("cases = (kind, text) lines run through the real jsonrpsee-types parsers/serialisers and through the extracted "
         "Coq model; generated from: well-formed serialisations over all id forms/payloads, all orders/subsets/duplications "
         "of response members (<=5) with value variants, structural mutations, byte mutations, deep nesting, the SEQUENCE "
@@ -359,7 +359,11 @@ def expected_resp_accept(text):
 
 
 def run(ctx):
-    ctx.engines = ["wire (harness/src/bin/wire.rs vs modelrun/wire_driver.ml over coq/Model/Wire.v)"]
+    ctx.engines = ["wire (harness/src/bin/wire.rs vs modelrun/wire_driver.ml over coq/Model/Wire.v)",
+                   "srvlimits (only: the bodies of the server's HTTP rejections must be JSON-RPC 2.0 error responses)"]
+    # (0) "only valid JSON-RPC 2.0 is emitted", on the wire: every HTTP rejection class of the body-reading path, every entry point
+    from props import c07
+    c07.http_error_bodies(ctx)
     impl, model = vlib.rust_bin("wire"), vlib.model_bin("wire")
     # (1) the 2^32 sweep against the translated table
     rc, out = vlib.sh([impl, "sweep"], timeout=600)
